@@ -931,6 +931,10 @@ impl BreadthFirstSearch {
 
         queue.push_back((root_goal as *mut Goal, 0));
 
+        // Candidate rules are executed speculatively: record their writes so that a
+        // search that does not prove the root goal leaves the caller's facts untouched
+        facts.begin_undo_frame();
+
         while let Some((goal_ptr, depth)) = queue.pop_front() {
             // Safety: We maintain ownership properly
             let goal = unsafe { &mut *goal_ptr };
@@ -983,6 +987,12 @@ impl BreadthFirstSearch {
         }
 
         let success = root_goal.is_proven();
+
+        if success {
+            facts.commit_undo_frame(); // keep the derived facts
+        } else {
+            facts.rollback_undo_frame(); // failed proof: undo the speculative rule executions
+        }
 
         SearchResult {
             success,
